@@ -11,8 +11,9 @@
 EXTENDS JsLiteral, Json, SequencesExt
 
 CONSTANTS Family,  \* "str" | "re" | "num"
-          Size,    \* str: 2 = quick, 3 = thorough;  re: max atoms
-          NParts
+          Size,    \* str: 2 = quick (covering sample), 3 = thorough;  re: max atoms
+          NParts,
+          Seed     \* rotates the seeded parts of the quick sample (VERIF_SEED)
 
 VARIABLES cs, done
 vars == <<cs, done>>
@@ -21,28 +22,103 @@ PrefSp(n, q) ==
   IF Allowed(n, "raw", q) THEN "raw"
   ELSE IF Allowed(n, "bs", q) THEN "bs"
   ELSE IF Allowed(n, "named", q) THEN "named" ELSE "u"
-Pref(q, names) == {Elem(n, PrefSp(n, q)) : n \in names}
-UEl(q, names) == {Elem(n, "u") : n \in names}
-Reduced == {"squote", "dquote", "btick", "bslash", "dollar", "lbrace", "nuldigit", "hisurr", "losurr"}
-Reduced2 == Reduced \cup {"cr", "lf", "letter", "script", "ls"}
+PrefEl(n, q) == Elem(n, PrefSp(n, q))
+Pref(q, names) == {PrefEl(n, q) : n \in names}
+(* the alternative spelling used for the spelling-variant pairs *)
+AltEl(n, q) == IF n = "linecont" THEN Elem(n, "bs") ELSE Elem(n, "u")
+Body(names) == names \ {"linecont"}
 
-Seqs1(q) == {<<e>> : e \in ElemsFor(q, ClassNames)}
-Seqs2(q) == {<<a, b>> : a \in Pref(q, ClassNames), b \in Pref(q, ClassNames) \cup UEl(q, ClassNames)}
-            \cup {<<a, b>> : a \in UEl(q, ClassNames), b \in Pref(q, ClassNames)}
-            \cup {<<Elem("cr", "raw"), Elem("lf", "raw")>> : x \in {1} \cap (IF IsTpl(q) THEN {1} ELSE {})}
+(* classes whose escaping depends on the quote kind: their pairs are taken under every quote kind *)
+Hot == {"squote", "dquote", "btick", "bslash", "dollar", "lbrace"}
+Reduced == Hot \cup {"nul", "d9", "hisurr", "losurr"}
+Reduced2 == Reduced \cup {"cr", "lf", "letter", "script", "ls", "d7"}
+
+Seqs1(q) == {<<e>> : e \in ElemsFor(q, ClassNames)} \ {<<Elem("linecont", "bs")>>}
+Pair(a, b, q) == <<PrefEl(a, q), PrefEl(b, q)>>
 Seqs3(q, names) == {<<a, b, c>> : a \in Pref(q, names), b \in Pref(q, names), c \in Pref(q, names)}
 Seqs4(q, names) == {<<a, b, c, d>> : a \in Pref(q, names), b \in Pref(q, names), c \in Pref(q, names), d \in Pref(q, names)}
 
-StrBodies(q) ==
-  {s \in Seqs1(q) \cup Seqs2(q)
-         \cup (IF Size = 2 THEN Seqs3(q, Reduced) ELSE Seqs3(q, ClassNames) \cup Seqs4(q, Reduced))
-     : SeqOK(s, q)}
+(* constructive families for the hazards that need three or more units *)
+ScriptSeqs(q) ==
+  LET P(n) == PrefEl(n, q) IN
+  UNION {{<<P("lt"), P("slash"), P(x)>>, <<P("lt"), P("slash"), P(x), P("letter")>>, <<P("letter"), P("lt"), P("slash"), P(x)>>,
+          <<P("slash"), P(x)>>, <<P("lt"), P("bslash"), P("slash"), P(x)>>, <<P("lt"), P("slash"), P(x), P("lt"), P("slash"), P(x)>>}
+         : x \in {"scr", "scrU", "scrM", "scrip"}}
+  \cup {<<P("lt"), P("slash"), P("letter")>>, <<P("lt"), P("slash")>>, <<P("script"), P("script")>>}
+SurSeqs(q) ==
+  LET P(n) == PrefEl(n, q) IN
+  {<<P(a), P(b), P(c)>> : a \in {"hisurr", "hismax", "losmin"}, b \in {"hismin", "hisurr", "losurr"}, c \in {"losmax", "hismax", "letter"}}
+NulSeqs(q) ==
+  LET P(n) == PrefEl(n, q) IN
+  {<<P(a), P("nul"), P(b)>> : a \in {"letter", "nul", "bslash", "d9"}, b \in {"d0", "d7", "d8", "d9", "slash", "colon", "letter", "nul"}}
+  \cup {<<P("nul"), P(b), P(c)>> : b \in {"d0", "d7", "d8", "d9"}, c \in {"d0", "d9", "letter"}}
+QuoteSeqs(q) == Seqs3(q, {"squote", "dquote", "btick", "dollar", "lbrace"}) \cup (IF Size >= 3 THEN Seqs4(q, {"squote", "dquote", "btick"}) ELSE {})
+(* spellings that the preferred-spelling pairs cannot reach: `\${` and `$\{` in templates, the legacy `\0` before 8 / 9 *)
+SpecialSeqs(q) ==
+  {s \in {<<Elem("dollar", "bs"), PrefEl("lbrace", q)>>, <<PrefEl("dollar", q), Elem("lbrace", "bs")>>,
+          <<Elem("nul", "bs"), PrefEl("d8", q)>>, <<Elem("nul", "bs"), PrefEl("d9", q)>>, <<Elem("nul", "bs"), PrefEl("letter", q)>>,
+          <<Elem("nul", "bs"), Elem("d9", "u")>>, <<Elem("nul", "oct"), PrefEl("d9", q)>>, <<Elem("d8", "oct"), Elem("d9", "oct")>>,
+          \* <CR><LF> in the value (escaped), and the raw pair that a template normalises to one <LF>
+          <<Elem("cr", "named"), Elem("lf", "named")>>, <<Elem("cr", "named"), PrefEl("lf", q)>>, <<Elem("cr", "raw"), Elem("lf", "raw")>>,
+          <<Elem("cr", "raw"), Elem("lf", "named")>>}
+     : \A i \in 1..Len(s) : Allowed(s[i][1], s[i][2], q)}
+(* quick: one quote kind per (class, spelling) in rotation, all quote kinds for the quote-sensitive classes *)
+Singles(q) ==
+  IF Size >= 3 THEN Seqs1(q)
+  ELSE LET E == SetToSeq(ClassNames \X Spellings)
+           QsOf(e) == SetToSeq({q2 \in Quotes : Allowed(e[1], e[2], q2)}) IN
+       {<<E[i]>> : i \in {j \in 1..Len(E) : /\ Allowed(E[j][1], E[j][2], q) /\ E[j][1] # "linecont"
+                                              /\ (E[j][1] \in Hot \cup {"lf", "cr"}
+                                                  \/ QsOf(E[j])[((j + Seed) % Len(QsOf(E[j]))) + 1] = q)}}
 
-StrCase(s, q) ==
-  [family |-> "str", quote |-> q, elems |-> s, units |-> UnitsOf(s, q, 1),
-   src |-> [i \in 1..Len(s) |-> Piece(s[i])], labels |-> BodyLabels(s, q)]
+(* the quote kinds a pair (index i in the fixed order of all pairs) is taken under in the quick sample *)
+PairSeq(d) == SetToSeq(Body(ClassNames) \X ClassNames)
+QuickQuotes(i, a, b) ==
+  IF a \in Hot /\ b \in Hot THEN Quotes
+  ELSE IF a \in Hot \/ b \in Hot THEN {<<"tpl", "tpl", "tag">>[((i + Seed) % 3) + 1], <<"sq", "dq">>[((i + Seed) % 2) + 1]}
+  ELSE {<<"sq", "dq", "tpl">>[((i + Seed) % 3) + 1]} \cup (IF (i + Seed) % 16 = 0 THEN {"tag"} ELSE {})
 
-ReSeqs == {<<a>> : a \in ReAtoms} \cup {<<a, b>> : a \in ReAtoms, b \in ReAtoms}
+(* <<quote, body>> pairs *)
+QB(q, S) == {<<q, s>> : s \in S}
+EveryNth(S, n) == LET Q == SetToSeq(S) IN {Q[i] : i \in {j \in 1..Len(Q) : (j + Seed) % n = 0}}
+
+StrBodies(d) ==
+  LET P == PairSeq(d) IN
+  UNION {QB(q, Singles(q) \cup ScriptSeqs(q) \cup SurSeqs(q) \cup NulSeqs(q) \cup SpecialSeqs(q)) : q \in Quotes}
+  \cup UNION {QB(q, QuoteSeqs(q)) : q \in (IF Size >= 3 THEN Quotes ELSE {"sq", "tpl"})}
+  \cup (IF Size = 2 THEN
+          UNION {UNION {QB(q, {Pair(P[i][1], P[i][2], q)}) : q \in QuickQuotes(i, P[i][1], P[i][2])} : i \in 1..Len(P)}
+          \* seeded slices: spelling variants of the pairs, triples and quadruples over the reduced alphabets
+          \cup UNION {QB(q, EveryNth({<<AltEl(a, q), PrefEl(b, q)>> : a \in Body(ClassNames), b \in ClassNames}
+                                     \cup {<<PrefEl(a, q), AltEl(b, q)>> : a \in Body(ClassNames), b \in ClassNames}, 96)
+                            \cup EveryNth(Seqs3(q, Reduced2), 160) \cup EveryNth(Seqs4(q, Reduced), 400)) : q \in Quotes}
+        ELSE
+          UNION {QB(q, {Pair(P[i][1], P[i][2], q) : i \in 1..Len(P)}) : q \in Quotes}
+          \cup UNION {QB(q, {<<AltEl(a, q), PrefEl(b, q)>> : a \in Body(ClassNames), b \in ClassNames}
+                            \cup {<<PrefEl(a, q), AltEl(b, q)>> : a \in Body(ClassNames), b \in ClassNames}) : q \in {"sq", "tpl"}}
+          \cup UNION {QB(q, Seqs3(q, Reduced) \cup EveryNth(Seqs3(q, Reduced2), 4) \cup Seqs4(q, Hot)) : q \in Quotes})
+
+(* contexts of a case: quick = expr, strict code (sq/dq) and one more in rotation; thorough = all for bodies of <= 2 elements *)
+CtxNames(q, quickOnly) == {c.name : c \in {x \in Contexts : q \in x.quotes /\ (quickOnly => x.quick)}}
+Rotating(q) == SetToSeq(CtxNames(q, TRUE) \ {"expr", "tag"})
+CtxsFor(i, s, q) ==
+  LET goal == Goal(s, q)
+      ok(n) == LET c == CHOOSE x \in Contexts : x.name = n IN ~(c.strict /\ goal = "sloppy")
+      R == Rotating(q)
+      \* the strict context is the expr context behind a `use strict` directive: it stands for both unless the body is sloppy-only
+      base == IF q = "tag" THEN {"tag"} ELSE IF q = "tpl" \/ goal = "sloppy" THEN {"expr"} ELSE {"strict"}
+      \* the text `use strict` always goes to the directive position as well (the directive must be recognised iff unescaped)
+      rot == (IF Len(R) = 0 THEN {} ELSE {R[((i + Seed) % Len(R)) + 1]})
+             \cup (IF q \in {"sq", "dq"} /\ \E k \in 1..Len(s) : s[k][1] = "usestrict" THEN {"dir"} ELSE {}) IN
+  {n \in (IF Size >= 3 /\ Len(s) <= 2 /\ (\A k \in 1..Len(s) : s[k] = PrefEl(s[k][1], q)) THEN CtxNames(q, FALSE) ELSE base \cup rot) : ok(n)}
+
+StrCase(i, s, q) ==
+  [family |-> "str", quote |-> q, elems |-> s, units |-> UnitsOf(s, q, 1), goal |-> Goal(s, q),
+   src |-> [k \in 1..Len(s) |-> Piece(s[k])], labels |-> BodyLabels(s, q), ctxs |-> CtxsFor(i, s, q),
+   usestrict |-> IsUseStrict(s)]
+
+ReSeqs == {<<a>> : a \in ReAtoms}
+          \cup (IF Size = 2 THEN EveryNth({<<a, b>> : a \in ReAtoms, b \in ReAtoms}, 2) ELSE {<<a, b>> : a \in ReAtoms, b \in ReAtoms})
           \cup (IF Size >= 3 THEN {<<a, b, c>> : a \in ReAtoms, b \in ReAtoms, c \in ReAtoms} ELSE {})
 ReCase(s, f) ==
   [family |-> "re", flags |-> f, atoms |-> [i \in 1..Len(s) |-> s[i].name],
@@ -54,7 +130,7 @@ NumCase(n) == [family |-> "num", form |-> n.form, txt |-> n.txt, mag |-> n.mag, 
                labels |-> IF n.form = "dec" /\ n.mag \in {"zero", "small"} THEN {} ELSE {n.form, n.mag}]
 
 CasesOf(fam) ==
-  CASE fam = "str" -> UNION {{StrCase(s, q) : s \in StrBodies(q)} : q \in Quotes}
+  CASE fam = "str" -> LET B == SetToSeq({b \in StrBodies(0) : SeqOK(b[2], b[1])}) IN {StrCase(i, B[i][2], B[i][1]) : i \in 1..Len(B)}
     [] fam = "re" -> {ReCase(p[1], p[2]) : p \in {x \in ReSeqs \X ReFlags : ReOK(x[1], x[2])}}
     [] fam = "num" -> {NumCase(n) : n \in NumForms}
 
@@ -69,12 +145,22 @@ SourceOK(c) ==
   /\ \A i \in 1..Len(c.src) : (c.src[i].txt = "") # (c.src[i].raw = <<>>)
   /\ \A i \in 1..Len(c.units) : c.units[i] \in 0..65535
   /\ Len(c.units) >= 1
+  /\ c.ctxs # {}
+  \* a sloppy-only body (Annex B escape) is never placed in strict code, and never in a template
+  /\ (c.goal = "sloppy") => (c.quote \in {"sq", "dq"} /\ \A n \in c.ctxs : ~(CHOOSE x \in Contexts : x.name = n).strict)
+  /\ \A n \in c.ctxs : c.quote \in (CHOOSE x \in Contexts : x.name = n).quotes
 
 ASSUME TLCSet(1, SetToSeq(CasesOf(Family)))
 ASSUME TLCSet(2, LET S == TLCGet(1) IN UNION {S[i].labels : i \in 1..Len(S)})
 ASSUME TLCSet(3, IF Family # "str" THEN {} ELSE
                  LET S == TLCGet(1) IN UNION {{<<S[i].quote, S[i].elems[j]>> : j \in 1..Len(S[i].elems)} : i \in 1..Len(S)})
+(* adjacent class pairs per quote kind, and the contexts used per quote kind *)
+ASSUME TLCSet(4, IF Family # "str" THEN {} ELSE
+                 LET S == TLCGet(1) IN UNION {{<<S[i].quote, S[i].elems[j][1], S[i].elems[j + 1][1]>> : j \in 1..(Len(S[i].elems) - 1)} : i \in 1..Len(S)})
+ASSUME TLCSet(5, IF Family # "str" THEN {} ELSE
+                 LET S == TLCGet(1) IN UNION {{<<S[i].quote, n>> : n \in S[i].ctxs} : i \in 1..Len(S)})
 ASSUME PrintT(<<"NCASES", Len(TLCGet(1))>>)
+ASSUME Family # "str" \/ PrintT(<<"CASE", ToJson([family |-> "ctx", contexts |-> SetToSeq(Contexts)])>>)
 
 Slice(k) == LET S == TLCGet(1) IN {S[i] : i \in {j \in 1..Len(S) : j % NParts = k - 1}}
 Init == cs = 0 /\ done = "no"
@@ -90,16 +176,39 @@ Spec == Init /\ [][Next]_vars
 AllSourcesOK == done # "bad"
 
 (* non-vacuity *)
+QCostRequired == {"qcost-lt-gt-eq", "qcost-gt-eq-gt", "qcost-eq-lt-lt", "qcost-gt-lt-eq", "qcost-lt-gt-gt", "qcost-lt-gt-lt", "qcost-gt-gt-gt",
+                  "qcost-eq-eq-eq", "qcost-eq-gt-gt", "qcost-lt-lt-lt", "qcost-lt-eq-lt", "qcost-gt-lt-gt", "qcost-gt-lt-lt"}
 RequiredLabels ==
-  CASE Family = "str" -> (ClassNames \ {"letter"}) \cup {"adj-dollar-brace", "adj-nul-digit", "adj-surrogate-pair", "adj-bslash-quote",
-                                                        "adj-cr-lf", "tpl-cr-normalised", "both-quotes"}
+  CASE Family = "str" -> (ClassNames \ {"letter"}) \cup
+         {"nul-end", "nul-octdigit", "nul-89", "nul-slash", "nul-colon", "nul-other",
+          "lf-tpl", "lf-str", "cr-tpl", "cr-str", "adj-cr-lf", "tpl-cr-normalised",
+          "lt-slash-script-tpl", "lt-slash-script-str", "lt-slash-script-uppercase", "lt-slash-script-at-end",
+          "lt-slash-script-then-more", "lt-slash-nomatch", "slash-script-without-lt",
+          "dollar-brace-tpl", "dollar-brace-str", "dollar-end", "dollar-other",
+          "quote-own-sq", "quote-own-dq", "quote-own-tpl", "quote-own-tag", "quote-other",
+          "adj-bslash-quote", "adj-surrogate-pair", "sur-hi-end", "sur-hi-hi", "sur-hi-other", "sur-lo-lone", "sur-lo-hi",
+          "unit-80-ff", "unit-above-ff", "both-quotes", "legacy-nul-89", "legacy-octal-escape"}
+         \cup QCostRequired
     [] Family = "re" -> {a.name : a \in ReAtoms} \ {"letter"}
     [] Family = "num" -> {"dec-sep", "dec-dot", "dec-frac", "lead-dot", "exp", "hex", "oct", "bin", "legacy-octal", "legacy-decimal",
                           "big-dec", "big-hex", "big-oct", "big-bin", "2^53+1", "overflow", "int32over", "uint32over"}
+(* every class x spelling x quote kind (quick: every class x spelling under some quote kind, the quote-sensitive ones under every one) *)
 RequiredCombos == IF Family # "str" THEN {} ELSE
-  UNION {{<<q, e>> : e \in {x \in ClassNames \X Spellings : Allowed(x[1], x[2], q)}} : q \in Quotes}
+  UNION {{<<q, e>> : e \in {x \in ClassNames \X Spellings : Allowed(x[1], x[2], q) /\ (Size >= 3 \/ x[1] \in Hot)}} : q \in Quotes}
+CombosSomewhere == Family # "str" \/ \A e \in ClassNames \X Spellings :
+  (\E q \in Quotes : Allowed(e[1], e[2], q)) => \E q \in Quotes : <<q, e>> \in TLCGet(3)
+(* every ordered pair of classes is adjacent under some quote kind; pairs with a quote-sensitive class under every quote kind; *)
+(* NUL followed by each digit class under a template and under a string placed in strict code                                 *)
+RequiredPairs == IF Family # "str" THEN {} ELSE
+  {<<q, a, b>> \in Quotes \X Body(ClassNames) \X ClassNames : (IF Size >= 3 THEN a \in Hot \/ b \in Hot ELSE a \in Hot /\ b \in Hot) /\ SeqOK(Pair(a, b, q), q)}
+PairSomewhere == Family # "str" \/ \A a \in Body(ClassNames), b \in ClassNames : \E q \in Quotes : <<q, a, b>> \in TLCGet(4)
+RequiredCtxs == IF Family # "str" THEN {} ELSE
+  UNION {{<<q, c.name>> : q \in c.quotes} : c \in {x \in Contexts : x.quick \/ Size >= 3}}
 MissingLabels == RequiredLabels \ TLCGet(2)
 MissingCombos == RequiredCombos \ TLCGet(3)
+MissingPairs == RequiredPairs \ TLCGet(4)
+MissingCtxs == RequiredCtxs \ TLCGet(5)
 Inhabited == done \in STRING /\
-  (IF MissingLabels = {} /\ MissingCombos = {} THEN TRUE ELSE Print(<<"MISSING", MissingLabels, MissingCombos>>, FALSE))
+  (IF MissingLabels = {} /\ MissingCombos = {} /\ MissingPairs = {} /\ MissingCtxs = {} /\ PairSomewhere /\ CombosSomewhere THEN TRUE
+   ELSE Print(<<"MISSING", MissingLabels, MissingCombos, MissingPairs, MissingCtxs, PairSomewhere, CombosSomewhere>>, FALSE))
 =============================================================================
